@@ -74,3 +74,33 @@ def replay_write(job):
 
 
 NATIVE = {}
+
+
+def search_reopen_merges(job):
+    """what a reopened document reports: rectangles merged with the library on fresh tables, and on documents authored in Numbers that
+    already hold merged rectangles (the bounded stand-in's own cases, a small selection)"""
+    import os, sys, warnings
+    sys.path.insert(0, os.path.dirname(os.path.dirname(os.path.abspath(__file__))))
+    from bounded import c12_merges as M
+    import numbers_parser
+    warnings.simplefilter("ignore")
+    data = os.path.join(os.path.dirname(os.path.dirname(os.path.dirname(numbers_parser.__file__))), "tests", "data")
+    cases = [{"size": 4, "rects": [[0, 0, 1, 1]]}, {"size": 4, "rects": [[1, 1, 1, 3], [2, 0, 3, 0]]}, {"size": 4, "rects": [[0, 1, 2, 1]], "second": [[3, 2, 3, 3]]}]
+    for name, sheet in (("test-4.numbers", 0), ("test-9.numbers", 0), ("test-9.numbers", 1), ("issue-77.numbers", 0)):
+        f = os.path.join(data, name)
+        if os.path.exists(f):
+            cases += [{"fixture": f, "sheet": sheet, "table": 0, "pick": p} for p in (0, 5)]
+    for c in cases:
+        r = M.run_case(c)
+        if r and r.get("detail"):
+            return {"violated": True, "detail": r["detail"], "job": {"custom": "replay_reopen_merges", "case": c}}
+    return {"violated": False}
+
+
+def replay_reopen_merges(job):
+    import os, sys, warnings
+    sys.path.insert(0, os.path.dirname(os.path.dirname(os.path.abspath(__file__))))
+    from bounded import c12_merges as M
+    warnings.simplefilter("ignore")
+    r = M.run_case(job["case"])
+    return {"violated": bool(r and r.get("detail")), "detail": (r or {}).get("detail", "")}
